@@ -73,6 +73,28 @@ const (
 	offCSig   = 289
 )
 
+// pk prints a byte string packed seven bytes per uint63 word, least
+// significant byte first: (U len [w0;w1;...]%uint63), see coq/Run/C34.v.
+func pk(b []byte) string {
+	if len(b) == 0 {
+		return "(@nil N)"
+	}
+	var sb strings.Builder
+	fmt.Fprintf(&sb, "(U %d%%N [", len(b))
+	for i := 0; i < len(b); i += 7 {
+		var w uint64
+		for k := 0; k < 7 && i+k < len(b); k++ {
+			w |= uint64(b[i+k]) << (8 * uint(k))
+		}
+		if i > 0 {
+			sb.WriteString(";")
+		}
+		fmt.Fprintf(&sb, "%d", w)
+	}
+	sb.WriteString("]%uint63)")
+	return sb.String()
+}
+
 func unhex(s string) []byte {
 	b, err := hex.DecodeString(s)
 	if err != nil {
@@ -105,7 +127,7 @@ type vq struct {
 }
 
 func (q vq) coq() string {
-	return vh.App("VQ", vh.Bytes(q.key), vh.Nat(q.moff), vh.Nat(q.mlen), vh.Nat(q.soff), vh.Bool(q.ok))
+	return vh.App("VQ", pk(q.key), vh.NU(uint64(q.moff)), vh.NU(uint64(q.mlen)), vh.NU(uint64(q.soff)), vh.Bool(q.ok))
 }
 
 func tblCoq(t []vq) string {
@@ -302,9 +324,9 @@ func prevCoq(p *Prev) string {
 	}
 	el := make([]string, len(p.Nodes))
 	for i, n := range p.Nodes {
-		el[i] = "(" + vh.Bytes(unhex(n.CS)) + ", " + vh.Bytes(unhex(n.CV)) + ", " + vh.Bytes(unhex(n.PS)) + ", " + vh.Bytes(unhex(n.PV)) + ")"
+		el[i] = "(" + pk(unhex(n.CS)) + ", " + pk(unhex(n.CV)) + ", " + pk(unhex(n.PS)) + ", " + pk(unhex(n.PV)) + ")"
 	}
-	return vh.App("SSome", vh.Bytes(unhex(p.CS)), vh.Bytes(unhex(p.CV)), vh.List(el, "(list N * list N * list N * list N)"))
+	return vh.App("SSome", pk(unhex(p.CS)), pk(unhex(p.CV)), vh.List(el, "(list N * list N * list N * list N)"))
 }
 
 // ---- run one case on the real code ------------------------------------------------
@@ -340,7 +362,7 @@ func resBytes(pan bool, err error, v func() []byte) string {
 	if err != nil {
 		return vh.Err("(list N)")
 	}
-	return vh.Ok(vh.Bytes(v()))
+	return vh.Ok(pk(v()))
 }
 
 func run(c *vh.Ctx, cs Case) {
@@ -357,7 +379,7 @@ func run(c *vh.Ctx, cs Case) {
 			if len(extra) >= entrySize {
 				t = entryQueries(extra, 0)
 			}
-			term = vh.App("CNode", vh.Bytes(extra), vh.Bool(cs.Genesis), tblCoq(t),
+			term = vh.App("CNode", pk(extra), vh.Bool(cs.Genesis), tblCoq(t),
 				resBytes(pan, err, func() []byte { return nodeProj(cn) }))
 		}
 		c.Case("node:"+cs.Kind, caseKey(cs), len(extra) == entrySize, cs, term)
@@ -385,7 +407,7 @@ func run(c *vh.Ctx, cs Case) {
 		pan, _ := vh.Catch(func() { req, err = common.ParseCustodianUpdateNodesExtra(extra, cs.Genesis) })
 		accepted := !pan && err == nil
 		if cs.Model {
-			term = vh.App("CParse", vh.Bytes(extra), vh.Bool(cs.Genesis), tblCoq(updateQueries(extra, nil)),
+			term = vh.App("CParse", pk(extra), vh.Bool(cs.Genesis), tblCoq(updateQueries(extra, nil)),
 				resBytes(pan, err, func() []byte {
 					var b []byte
 					b = append(b, req.Custodian.PublicSpendKey[:]...)
@@ -413,7 +435,7 @@ func run(c *vh.Ctx, cs Case) {
 				out.Keys = append(out.Keys, &kk)
 			}
 			tx.Outputs = append(tx.Outputs, out)
-			outs[i] = "(" + vh.ZU(uint64(o.Type)) + ", " + vh.Nat(o.NKeys) + ", " + vh.Bytes(unhex(o.Script)) + ", " + vh.Z(amt) + ")"
+			outs[i] = "(" + vh.ZU(uint64(o.Type)) + ", " + vh.Nat(o.NKeys) + ", " + pk(unhex(o.Script)) + ", " + vh.Z(amt) + ")"
 		}
 		var err error
 		pan, _ := vh.Catch(func() { err = common.VerifC34ValidateCustodianUpdateNodes(tx, fakeStore{cs.Prev}, 1700000000000000000) })
@@ -426,7 +448,7 @@ func run(c *vh.Ctx, cs Case) {
 				obs = vh.Err("unit")
 			}
 			term = vh.App("CValidate", vh.ZU(uint64(cs.Version)), vh.BytesAsN(unhex(cs.Asset)),
-				vh.List(outs, "(Z * nat * list N * Z)"), vh.Bytes(extra), tblCoq(updateQueries(extra, cs.Prev)), prevCoq(cs.Prev), obs)
+				vh.List(outs, "(Z * nat * list N * Z)"), pk(extra), tblCoq(updateQueries(extra, cs.Prev)), prevCoq(cs.Prev), obs)
 		}
 		// non-trivial: the real parser accepts the extra, i.e. validation reached the approval/price core
 		var req *common.CustodianUpdateRequest
